@@ -7,6 +7,7 @@
 (* builtin.jq text is evaluated by JqSem.                                   *)
 (***************************************************************************)
 EXTENDS JsonValue, Text
+FM == INSTANCE Formats
 
 \* results ------------------------------------------------------------------
 NoErr == [k |-> "none"]
@@ -431,6 +432,175 @@ MathOpaque1 == {"sin","cos","tan","asin","acos","atan","sinh","cosh","tanh","asi
                 "sqrt","cbrt","exp","exp10","exp2","expm1","log","log10","log1p","log2","logb","gamma","tgamma","lgamma",
                 "erf","erfc","j0","j1","y0","y1","frexp","modf"}
 
+\* two- and three-argument math functions: typing, plus the cases that stay exact on small integers
+BnMathOpaque2 == {"atan2","copysign","drem","fdim","fmax","fmin","fmod","hypot","jn","nextafter","nexttoward","remainder","ldexp","scalb","scalbln","yn","pow"}
+BnSmallInt(v) == v.t = "num" /\ Abs(v.n) <= 1024
+RECURSIVE BnIPow(_, _)
+BnIPow(b, e) == IF e = 0 THEN 1 ELSE b * BnIPow(b, e - 1)
+BnMath2(name, a, b) ==
+  IF ~(IsNumber(a) /\ IsNumber(b)) THEN VTypeErr
+  ELSE IF ~(BnSmallInt(a) /\ BnSmallInt(b)) THEN VOom
+  ELSE CASE name = "fmax" -> V1(IF a.n >= b.n THEN a ELSE b)
+         [] name = "fmin" -> V1(IF a.n <= b.n THEN a ELSE b)
+         [] name = "fdim" -> V1(Num(IF a.n > b.n THEN a.n - b.n ELSE 0))
+         [] name = "pow" /\ b.n >= 0 /\ b.n <= 20 /\ Abs(a.n) <= 8 -> V1(Num(BnIPow(a.n, b.n)))
+         [] name = "fmod" /\ b.n # 0 /\ a.n > 0 -> V1(Num(a.n % Abs(b.n)))            \* the sign of a zero result is not modelled: positive dividends only
+         [] name \in {"ldexp", "scalb", "scalbln"} /\ b.n >= 0 /\ b.n <= 16 -> V1(Num(a.n * BnIPow(2, b.n)))
+         [] OTHER -> VOom
+
+\* formats ---------------------------------------------------------------------
+BnFmtRes(r) == CASE r.k = "ok" -> V1(Str(r.s)) [] r.k = "err" -> VTypeErr [] OTHER -> VOom
+BnOnStr(x, F(_)) == LET t == FM!ToStr(x) IN IF ~t.ok THEN VOom ELSE F(t.s)
+BnFormatCall(fn, x) ==
+  CASE fn = "tostring" -> (IF x.t = "str" THEN V1(x) ELSE LET t == JsonText(x) IN IF t.ok THEN V1(Str(t.s)) ELSE VOom)
+    [] fn = "tojson" -> (LET t == JsonText(x) IN IF t.ok THEN V1(Str(t.s)) ELSE VOom)
+    [] fn = "_tohtml" -> BnOnStr(x, LAMBDA s : V1(Str(FM!ToHtml(s))))
+    [] fn = "_touri" -> BnOnStr(x, LAMBDA s : V1(Str(FM!ToUri(s))))
+    [] fn = "_tourid" -> BnOnStr(x, LAMBDA s : BnFmtRes(FM!ToUrid(s)))
+    [] fn = "_tocsv" -> BnFmtRes(FM!FormatJoin("csv", x))
+    [] fn = "_totsv" -> BnFmtRes(FM!FormatJoin("tsv", x))
+    [] fn = "_tosh" -> BnFmtRes(FM!FormatJoin("sh", x))
+    [] fn = "_tobase64" -> BnOnStr(x, LAMBDA s : V1(Str(FM!ToBase64(s))))
+    [] fn = "_tobase64d" -> BnOnStr(x, LAMBDA s : BnFmtRes(FM!ToBase64d(s)))
+    [] OTHER -> VOom
+BnFormatNames == {"_tohtml", "_touri", "_tourid", "_tocsv", "_totsv", "_tosh", "_tobase64", "_tobase64d"}
+\* funcFormat: "@" + name looked up in formatToFunc
+BnFormatByName(s) ==
+  CASE s = <<116,101,120,116>> -> "tostring" [] s = <<106,115,111,110>> -> "tojson" [] s = <<104,116,109,108>> -> "_tohtml"
+    [] s = <<117,114,105>> -> "_touri" [] s = <<117,114,105,100>> -> "_tourid" [] s = <<99,115,118>> -> "_tocsv" [] s = <<116,115,118>> -> "_totsv"
+    [] s = <<115,104>> -> "_tosh" [] s = <<98,97,115,101,54,52>> -> "_tobase64" [] s = <<98,97,115,101,54,52,100>> -> "_tobase64d" [] OTHER -> "?"
+
+\* _match on a literal expression; _captures ----------------------------------------
+BnKCaptures == CpOf(<<"c","a","p","t","u","r","e","s">>)
+BnKLength == CpOf(<<"l","e","n","g","t","h">>)
+BnKOffset == CpOf(<<"o","f","f","s","e","t">>)
+BnKString == CpOf(<<"s","t","r","i","n","g">>)
+BnKName == CpOf(<<"n","a","m","e">>)
+BnMatchObj(off, s) == Obj(<< <<BnKCaptures, Arr(<<>>)>>, <<BnKLength, Num(Len(s))>>, <<BnKOffset, Num(off)>>, <<BnKString, Str(s)>> >>)
+BnMatchNative(x, re, fl, testing) ==
+  IF ~(fl.t \in {"null", "str"}) \/ x.t # "str" \/ re.t # "str" THEN VTypeErr
+  ELSE LET f == IF fl.t = "null" THEN <<>> ELSE fl.s IN
+       IF \E i \in 1..Len(f) : f[i] \notin {103, 105, 109} THEN VTypeErr
+       ELSE IF ~FM!LiteralRe(re.s) THEN VOom
+       ELSE IF (\E i \in 1..Len(f) : f[i] = 105) /\ (\E i \in 1..Len(re.s) : FM!IsLetterish(re.s[i])) THEN VOom
+       ELSE LET occ == FM!Occ(x.s, re.s, 1)
+                ms == IF (\E i \in 1..Len(f) : f[i] = 103) \/ Len(occ) = 0 THEN occ ELSE <<occ[1]>>
+            IN IF testing = True THEN V1(Bool(Len(occ) > 0))
+               ELSE V1(Arr([i \in 1..Len(ms) |-> BnMatchObj(ms[i] - 1, re.s)]))
+RECURSIVE BnCapturesObj(_, _, _)
+BnCapturesObj(cs, i, acc) ==
+  IF i > Len(cs) THEN acc
+  ELSE LET c == cs[i] IN
+       IF c.t = "obj" /\ ObjGet(c.o, BnKName).t = "str" THEN BnCapturesObj(cs, i + 1, ObjPut(acc, ObjGet(c.o, BnKName).s, ObjGet(c.o, BnKString)))
+       ELSE BnCapturesObj(cs, i + 1, acc)
+
+\* dates --------------------------------------------------------------------------
+\* gmtime / mktime / strftime / strptime of func.go on the civil calendar of Dates.tla.  An instant is
+\* [days, sod, fn, fd]: days since 1970-01-01, second of the day, fraction fn/fd of a second (fd divides 512, so
+\* that the nanosecond arithmetic of epochToArray / arrayToTime is exact).  timefmt-go is modelled for the
+\* directives without flags listed in BnStrfDir; anything else is out of model.
+BnDT == INSTANCE Dates
+BnTOom == [k |-> "oom"]
+BnTErr == [k |-> "err"]
+BnInst(days, sod, fn, fd) == [k |-> "ok", days |-> days, sod |-> sod, fn |-> fn, fd |-> fd]
+BnInstOfSeconds(fl, fn, fd) == LET dd == FloorDiv(fl, 86400) IN BnInst(dd, fl - dd * 86400, fn, fd)
+BnEpochParts(x) ==
+  CASE x.t = "num" -> BnInstOfSeconds(x.n, 0, 1)
+    [] x.t = "big" -> (IF Len(x.d) > 13 THEN BnTOom
+                       ELSE LET q == ZDivMod(ToZ(x), ZFromInt(86400))  qq == ZToInt(q.q)  r == ZToInt(q.r) IN
+                            IF r < 0 THEN BnInst(qq - 1, r + 86400, 0, 1) ELSE BnInst(qq, r, 0, 1))
+    [] x.t = "frac" -> (IF 512 % x.d # 0 THEN BnTOom ELSE LET fl == FloorDiv(x.n, x.d) IN BnInstOfSeconds(fl, x.n - fl * x.d, x.d))
+    [] OTHER -> BnTOom
+BnGmtimeArr(p) ==
+  LET g == BnDT!Gmtime(p.days, p.sod) IN
+  Arr(<<Num(g[1]), Num(g[2]), Num(g[3]), Num(g[4]), Num(g[5]), MkFrac(g[6] * p.fd + p.fn, p.fd), Num(g[7]), Num(g[8])>>)
+\* arrayToTime + time.Date (fields outside their usual ranges are normalised)
+BnTimeOfArr(a) ==
+  LET n == IF Len(a) < 8 THEN Len(a) ELSE 8
+      el(i) == IF i <= n THEN a[i] ELSE Num(0)
+      int(i) == LET v == el(i) IN IF v.t = "frac" THEN TruncDiv(v.n, v.d) ELSE v.n
+  IN IF \E i \in 1..n : ~IsNumber(a[i]) THEN BnTErr
+     ELSE IF \E i \in 1..n : a[i].t \in {"big", "float"} THEN BnTOom
+     ELSE IF \E i \in 1..n : Abs(NumerOf(a[i])) > 100000 * DenomOf(a[i]) THEN BnTOom
+     ELSE LET sv == el(6)
+              okf == sv.t # "frac" \/ 512 % sv.d = 0
+              sfl == IF sv.t = "frac" THEN FloorDiv(sv.n, sv.d) ELSE sv.n
+              fn == IF sv.t = "frac" THEN sv.n - sfl * sv.d ELSE 0
+              fd == IF sv.t = "frac" THEN sv.d ELSE 1
+              y2 == int(1) + FloorDiv(int(2), 12)
+              m2 == int(2) - 12 * FloorDiv(int(2), 12)
+              secs == int(4) * 3600 + int(5) * 60 + sfl
+              dd == BnDT!DaysFromCivil(y2, m2 + 1, 1) + int(3) - 1 + FloorDiv(secs, 86400)
+          IN IF ~okf THEN BnTOom ELSE BnInst(dd, secs - FloorDiv(secs, 86400) * 86400, fn, fd)
+BnEpochValue(p) ==
+  LET z == ZAdd(ZMul(ZFromInt(p.days), ZFromInt(86400)), ZFromInt(p.sod)) IN
+  IF p.fd = 1 THEN V1(FromZ(z))
+  ELSE IF ZIsSmall(z) /\ Abs(ZToInt(z)) < 30000 THEN V1(MkFrac(ZToInt(z) * p.fd + p.fn, p.fd)) ELSE VOom
+BnShortWeek == <<<<83,117,110>>, <<77,111,110>>, <<84,117,101>>, <<87,101,100>>, <<84,104,117>>, <<70,114,105>>, <<83,97,116>>>>
+BnLongWeek == <<<<83,117,110,100,97,121>>, <<77,111,110,100,97,121>>, <<84,117,101,115,100,97,121>>, <<87,101,100,110,101,115,100,97,121>>, <<84,104,117,114,115,100,97,121>>, <<70,114,105,100,97,121>>, <<83,97,116,117,114,100,97,121>>>>
+BnShortMonth == <<<<74,97,110>>, <<70,101,98>>, <<77,97,114>>, <<65,112,114>>, <<77,97,121>>, <<74,117,110>>, <<74,117,108>>, <<65,117,103>>, <<83,101,112>>, <<79,99,116>>, <<78,111,118>>, <<68,101,99>>>>
+BnLongMonth == <<<<74,97,110,117,97,114,121>>, <<70,101,98,114,117,97,114,121>>, <<77,97,114,99,104>>, <<65,112,114,105,108>>, <<77,97,121>>, <<74,117,110,101>>, <<74,117,108,121>>, <<65,117,103,117,115,116>>, <<83,101,112,116,101,109,98,101,114>>, <<79,99,116,111,98,101,114>>, <<78,111,118,101,109,98,101,114>>, <<68,101,99,101,109,98,101,114>>>>
+BnPad0(n, w) == BnDT!Pad(n, w)
+BnNatText(n) == IntText(Num(n))
+\* one directive -> [ok, s]; g = Gmtime fields (month 0-based, weekday 0 = Sunday, yearday 0-based)
+RECURSIVE BnStrfDir(_, _, _)
+BnStrfSeq(ds, g, p) == LET parts == [i \in 1..Len(ds) |-> IF ds[i] < 0 THEN [ok |-> TRUE, s |-> <<0 - ds[i]>>] ELSE BnStrfDir(ds[i], g, p)] IN
+                     [ok |-> \A i \in 1..Len(ds) : parts[i].ok, s |-> FM!Cat([i \in 1..Len(ds) |-> parts[i].s])]
+BnStrfDir(c, g, p) ==
+  LET T(s) == [ok |-> TRUE, s |-> s] IN
+  CASE c = 89 -> (IF g[1] >= 0 /\ g[1] <= 9999 THEN T(BnPad0(g[1], 4)) ELSE [ok |-> FALSE, s |-> <<>>])     \* Y
+    [] c = 121 -> (IF g[1] >= 0 THEN T(BnPad0(g[1] % 100, 2)) ELSE [ok |-> FALSE, s |-> <<>>])               \* y
+    [] c = 109 -> T(BnPad0(g[2] + 1, 2))                                                                      \* m
+    [] c = 100 -> T(BnPad0(g[3], 2))                                                                          \* d
+    [] c = 101 -> T(IF g[3] < 10 THEN <<32, 48 + g[3]>> ELSE BnPad0(g[3], 2))                                 \* e
+    [] c = 72 -> T(BnPad0(g[4], 2))                                                                           \* H
+    [] c = 73 -> T(BnPad0(IF g[4] % 12 = 0 THEN 12 ELSE g[4] % 12, 2))                                        \* I
+    [] c = 77 -> T(BnPad0(g[5], 2))                                                                           \* M
+    [] c = 83 -> T(BnPad0(g[6], 2))                                                                           \* S
+    [] c = 106 -> T(BnPad0(g[8] + 1, 3))                                                                      \* j
+    [] c = 97 -> T(BnShortWeek[g[7] + 1])                                                                     \* a
+    [] c = 65 -> T(BnLongWeek[g[7] + 1])                                                                      \* A
+    [] c \in {98, 104} -> T(BnShortMonth[g[2] + 1])                                                           \* b h
+    [] c = 66 -> T(BnLongMonth[g[2] + 1])                                                                     \* B
+    [] c = 112 -> T(IF g[4] < 12 THEN <<65, 77>> ELSE <<80, 77>>)                                           \* p
+    [] c = 90 -> T(<<85, 84, 67>>)                                                                          \* Z
+    [] c = 122 -> T(<<43, 48, 48, 48, 48>>)                                                                 \* z
+    [] c = 119 -> T(<<48 + g[7]>>)                                                                          \* w
+    [] c = 117 -> T(<<48 + (IF g[7] = 0 THEN 7 ELSE g[7])>>)                                                \* u
+    [] c = 110 -> T(<<10>>)                                                                                 \* n
+    [] c = 116 -> T(<<9>>)                                                                                  \* t
+    [] c = 37 -> T(<<37>>)                                                                                  \* %
+    [] c = 84 -> BnStrfSeq(<<72, -58, 77, -58, 83>>, g, p)                                                    \* T = H:M:S
+    [] c = 82 -> BnStrfSeq(<<72, -58, 77>>, g, p)                                                             \* R = H:M
+    [] c = 70 -> BnStrfSeq(<<89, -45, 109, -45, 100>>, g, p)                                                  \* F = Y-m-d
+    [] c = 68 -> BnStrfSeq(<<109, -47, 100, -47, 121>>, g, p)                                                 \* D = m/d/y
+    [] OTHER -> [ok |-> FALSE, s |-> <<>>]
+RECURSIVE BnStrf(_, _, _, _)
+BnStrf(f, i, g, p) ==
+  IF i > Len(f) THEN [ok |-> TRUE, s |-> <<>>]
+  ELSE IF f[i] # 37 THEN LET r == BnStrf(f, i + 1, g, p) IN [ok |-> r.ok, s |-> <<f[i]>> \o r.s]
+  ELSE IF i = Len(f) THEN [ok |-> TRUE, s |-> <<37>>]
+  ELSE LET d == BnStrfDir(f[i + 1], g, p)  r == BnStrf(f, i + 2, g, p) IN [ok |-> d.ok /\ r.ok, s |-> d.s \o r.s]
+BnStrftime(x, f) ==
+  LET p == IF IsNumber(x) THEN BnEpochParts(x) ELSE IF x.t = "arr" THEN BnTimeOfArr(x.a) ELSE BnTErr IN
+  IF p.k = "err" \/ f.t # "str" THEN VTypeErr
+  ELSE IF p.k = "oom" THEN VOom
+  ELSE LET r == BnStrf(f.s, 1, BnDT!Gmtime(p.days, p.sod), p) IN IF r.ok THEN V1(Str(r.s)) ELSE VOom
+\* strptime: only the ISO 8601 format of fromdateiso8601 on texts of exactly that shape
+BnIsoFormat == <<37,89,45,37,109,45,37,100,84,37,72,58,37,77,58,37,83,37,122>>        \* %Y-%m-%dT%H:%M:%S%z
+BnDaysInMonth(y, m) == BnDT!DaysFromCivil(IF m = 12 THEN y + 1 ELSE y, IF m = 12 THEN 1 ELSE m + 1, 1) - BnDT!DaysFromCivil(y, m, 1)
+BnStrptime(x, f) ==
+  IF x.t # "str" \/ f.t # "str" THEN VTypeErr
+  ELSE IF f.s # BnIsoFormat THEN VOom
+  ELSE LET s == x.s
+           dig(i) == IsDigitCp(s[i])
+           shape == Len(s) = 20 /\ (\A i \in {1,2,3,4,6,7,9,10,12,13,15,16,18,19} : dig(i)) /\ s[5] = 45 /\ s[8] = 45 /\ s[11] = 84 /\ s[14] = 58 /\ s[17] = 58 /\ s[20] = 90
+       IN IF ~shape THEN VOom
+          ELSE LET y == BnDT!Num2(s, 1) * 100 + BnDT!Num2(s, 3)  mo == BnDT!Num2(s, 6)  d == BnDT!Num2(s, 9)  h == BnDT!Num2(s, 12)  mi == BnDT!Num2(s, 15)  sc == BnDT!Num2(s, 18) IN
+               IF mo < 1 \/ mo > 12 \/ d < 1 \/ h > 23 \/ mi > 59 \/ sc > 59 THEN VOom
+               ELSE IF d > BnDaysInMonth(y, mo) THEN VOom
+               ELSE V1(BnGmtimeArr(BnInst(BnDT!DaysFromCivil(y, mo, d), h * 3600 + mi * 60 + sc, 0, 1)))
+
 \* the dispatcher ---------------------------------------------------------------
 StrArg2(x, a, F(_, _)) == IF x.t = "str" /\ a.t = "str" THEN V1(F(x.s, a.s)) ELSE VTypeErr
 
@@ -564,6 +734,19 @@ Native(name, x, args) ==
                              ELSE IF x.t = "big" THEN VOom ELSE V1(Bool(NumerOf(x) # 0)))
     [] name \in MathNames -> MathExact(name, x)
     [] name \in MathOpaque1 -> (IF IsNumber(x) THEN VOom ELSE VTypeErr)
+    [] name \in BnMathOpaque2 -> BnMath2(name, a1, a2)
+    [] name = "fma" -> (IF ~(IsNumber(a1) /\ IsNumber(a2) /\ IsNumber(a3)) THEN VTypeErr
+                        ELSE IF BnSmallInt(a1) /\ BnSmallInt(a2) /\ BnSmallInt(a3) THEN V1(Num(a1.n * a2.n + a3.n)) ELSE VOom)
+    [] name \in BnFormatNames -> BnFormatCall(name, x)
+    [] name = "format" -> (IF a1.t # "str" THEN VTypeErr ELSE LET fn == BnFormatByName(a1.s) IN IF fn = "?" THEN VTypeErr ELSE BnFormatCall(fn, x))
+    [] name = "fromjson" -> (IF x.t # "str" THEN VTypeErr
+                             ELSE LET r == FM!ParseJson(x.s) IN CASE r.k = "ok" -> V1(r.v) [] r.k = "bad" -> VTypeErr [] OTHER -> VOom)
+    [] name = "_match" -> BnMatchNative(x, a1, a2, a3)
+    [] name = "gmtime" -> (IF ~IsNumber(x) THEN VTypeErr ELSE LET p == BnEpochParts(x) IN IF p.k = "ok" THEN V1(BnGmtimeArr(p)) ELSE VOom)
+    [] name = "mktime" -> (IF x.t # "arr" THEN VTypeErr ELSE LET p == BnTimeOfArr(x.a) IN CASE p.k = "ok" -> BnEpochValue(p) [] p.k = "err" -> VTypeErr [] OTHER -> VOom)
+    [] name = "strftime" -> BnStrftime(x, a1)
+    [] name = "strptime" -> BnStrptime(x, a1)
+    [] name = "_captures" -> (IF x.t # "arr" THEN VTypeErr ELSE V1(Obj(BnCapturesObj(x.a, 1, <<>>))))
     [] name = "halt" -> [o |-> <<>>, e |-> HaltE(Null, 0)]
     [] name = "halt_error" ->
          (IF Len(args) = 0 THEN [o |-> <<>>, e |-> HaltE(x, 5)]
